@@ -804,3 +804,39 @@ Proof.
   destruct l as [[l1 l2] l3], o as [[o1 o2] o3]. unfold vsub, vzero, vx, vy, vz in *. cbn [fst snd] in *.
   inversion E. f_equal; [f_equal|]; lra.
 Qed.
+
+(** * initial parameters of RadialClamp and FreeClamp: distance zero at the start point *)
+
+Lemma norm_vzero : norm vzero = 0.
+Proof. unfold norm. replace (norm2 vzero) with 0 by (vec_simpl; ring). apply sqrt_0. Qed.
+
+Lemma clamp_distance_self {P : Type} (fn : P -> vec) (q : P) : clamp_distance fn (fn q) q = 0.
+Proof.
+  unfold clamp_distance. replace (vsub (fn q) (fn q)) with vzero by (unfold vzero; vec_ring). apply norm_vzero.
+Qed.
+
+Lemma argmin_at_zero_distance {P : Type} (fn : P -> vec) (dom : P -> Prop) (q : P) :
+  dom q -> is_argmin dom (clamp_distance fn (fn q)) q.
+Proof.
+  intro Hd. split; [exact Hd|]. intros q' _. rewrite clamp_distance_self. apply norm_nonneg.
+Qed.
+
+Lemma radial_initial_argmin p0 c n k (dom : R -> Prop) :
+  dom 0 -> is_argmin dom (clamp_distance (radial_pos_k p0 c n k) p0) 0.
+Proof.
+  intro Hd. pose proof (argmin_at_zero_distance (radial_pos_k p0 c n k) dom 0 Hd) as H.
+  rewrite radial_pos_0 in H. exact H.
+Qed.
+
+Lemma free_initial_argmin pos :
+  is_argmin (fun _ => True) (clamp_distance free_pos pos) pos
+  /\ forall q, is_argmin (fun _ => True) (clamp_distance free_pos pos) q -> q = pos.
+Proof.
+  split.
+  - exact (argmin_at_zero_distance free_pos (fun _ => True) pos I).
+  - intros q [_ Hmin]. specialize (Hmin pos I).
+    change (clamp_distance free_pos pos pos) with (clamp_distance free_pos (free_pos pos) pos) in Hmin.
+    rewrite clamp_distance_self in Hmin. unfold clamp_distance, free_pos in Hmin.
+    pose proof (norm_nonneg (vsub pos q)) as Hn.
+    symmetry. apply vsub_eq_zero. apply norm_zero_eq. lra.
+Qed.
